@@ -62,11 +62,15 @@ def generate(src):
         ok = st.fork(); r = fresh('rec'); ok.pc.append(Or(r == Val.none, is_exc_inst(r))); k(ok, r)
         f = st.fork(); setG(f, from_recursion=BoolVal(True)); K['exc'](f, new_exc(f, 'SecurityError'))
     def h_for(ex, s, st, k, K):
-        assert ast.unparse(s.iter) == 'exc_type.split(".")' or ast.unparse(s.iter) == "exc_type.split('.')"
+        if not (isinstance(s.iter, ast.Call) and isinstance(s.iter.func, ast.Attribute) and s.iter.func.attr == 'split' and isinstance(s.target, ast.Name)): raise Unsupported("exception_to_python: loop over " + ast.unparse(s.iter))
         it = st.fork(); it.env = dict(it.env); it.env['cls'] = fresh('cls'); it.env['name'] = fresh('name')
         ex.block(s.body, it, lambda s3: None, K)                       # arbitrary iteration (invariant: True)
         out = st.fork(); out.env = dict(out.env); out.env['cls'] = fresh('cls'); return k(out)
+    MODNAME = fresh('modname')
     class Ex(Exec):
+        def ev_Name(self, e, st, k, K):
+            if e.id == '__name__' and e.id not in st.env: return k(st, MODNAME)
+            return super().ev_Name(e, st, k, K)
         def ev_Subscript(self, e, st, k, K):
             if ast.unparse(e.value) == 'sys.modules':
                 ok = st.fork(); k(ok, fresh('module'))
@@ -94,6 +98,7 @@ def generate(src):
             return super().assign(tgt, v, st, k, K)
     ex = Ex({'isinstance': h_isinstance, 'issubclass': h_issubclass, 'get_pickled_exception': h_get_pickled, 'create_exception_cls': h_create_cls, 'getattr': h_getattr,
              'exc_type.split': h_split, 'taskiq.exceptions.SecurityError': h_security, 'Exception': h_Exception, 'exception_to_python': h_recursive, '@for': h_for})
+    ex.inline_scope = (src, REL, None)          # helpers of the same file without a contract are executed with their real body at the call site
     st = State(); exc = fresh('exc'); st.env = {'exc': exc, '__name__': fresh('modname')}; st.ghost = dict(lookup_failed=BoolVal(False), synthetic=Val.none, synth_name=Val.none)
     st.pc.append(Or(exc == Val.none, is_exc_inst(exc), And(Val.is_ref(exc), Not(is_exc_inst(exc)))))      # None | BaseException | ExceptionRepr
     exits = collections.Counter()
@@ -159,12 +164,20 @@ def generate(src):
     BANNED_CALLS = ('__import__', 'importlib.import_module', 'import_module', 'eval', 'exec', 'compile', 'import_object', 'pydoc.locate', 'locate')
     def banned(fd): return [ast.unparse(n)[:60] for n in ast.walk(fd) if isinstance(n, (ast.Import, ast.ImportFrom)) or (isinstance(n, ast.Call) and ast.unparse(n.func) in BANNED_CALLS)]
     load_path = {'exception_to_python': fdef, 'get_pickled_exception': GPE, 'restore': RESTORE, 'create_exception_cls': CEC, 'subclass_exception': SUB}
+    module_funcs = {n_.name: n_ for n_ in ast.walk(src.tree(REL)) if isinstance(n_, (ast.FunctionDef, ast.AsyncFunctionDef))}
+    changed = True
+    while changed:          # helpers of the same file that the load path calls belong to the load path (transitively): their bodies are scanned as well
+        changed = False
+        for fd in list(load_path.values()):
+            for n_ in ast.walk(fd):
+                if isinstance(n_, ast.Call) and isinstance(n_.func, ast.Name) and n_.func.id in module_funcs and n_.func.id not in load_path:
+                    load_path[n_.func.id] = module_funcs[n_.func.id]; changed = True
     callees = sorted({ast.unparse(n.func) for fd in load_path.values() for n in ast.walk(fd) if isinstance(n, ast.Call)})
-    known = {'isinstance', 'issubclass', 'get_pickled_exception', 'create_exception_cls', 'subclass_exception', 'getattr', 'exc_type.split', 'taskiq.exceptions.SecurityError', 'Exception', 'exception_to_python',
+    known = set(load_path) | {'isinstance', 'issubclass', 'get_pickled_exception', 'create_exception_cls', 'subclass_exception', 'getattr', 'exc_type.split', 'taskiq.exceptions.SecurityError', 'Exception', 'exception_to_python',
              'cls', 'exc.restore', 'type', 'create_exception_cls(self.exc_cls_name, self.exc_module)', 'validate_call', 'pydantic.ConfigDict'}          # the last two: the @validate_call decorator (TRUSTED)
     sf = State()
     oblige(sf, "load path/frame: no import statement, __import__, importlib, eval, exec or compile anywhere on the load path  [C20]", BoolVal(not any(banned(fd) for fd in load_path.values())), witness={})
     oblige(sf, "load path/frame: every callee on the load path is accounted for (gate-protected dynamic call, repo function under contract, or a pure builtin)  [C20]", BoolVal(set(callees) <= known))
-    subs = [ast.unparse(n) for n in ast.walk(fdef) if isinstance(n, ast.Subscript) and isinstance(n.value, ast.Attribute) and ast.unparse(n.value).startswith('sys.')]
+    subs = [ast.unparse(n) for fd_ in load_path.values() for n in ast.walk(fd_) if isinstance(n, ast.Subscript) and isinstance(n.value, ast.Attribute) and ast.unparse(n.value).startswith('sys.')]
     oblige(sf, "load path/frame: modules are only looked up in sys.modules (never loaded)  [C20]", BoolVal(all(s_.startswith('sys.modules[') for s_ in subs) and len(subs) >= 1))
     return {'exits': dict(exits), 'dynamic_call_sites': sorted(set(dyn_calls)), 'load_path_callees': callees}
